@@ -51,15 +51,14 @@ QUICK = [
     ("pair-sim", dict(depths="{1,2,3}", rows=3, total=12, garbage=1, validity="any", zero="FALSE", mode="pair"), "num=1500"),
 ]
 THOROUGH = [
-    ("single-d012", dict(depths="{0,1,2}", rows=6, total=8, garbage=1, validity="any", zero="TRUE", mode="single"), None),
-    ("single-d3", dict(depths="{3}", rows=6, total=6, garbage=1, validity="any", zero="TRUE", mode="single"), None),
-    ("pair-allvalid", dict(depths="{2,3}", rows=2, total=10, garbage=0, validity="none", zero="FALSE", mode="pair"), None),
-    ("pair-small", dict(depths="{1,2}", rows=2, total=5, garbage=0, validity="any", zero="FALSE", mode="pair"), None),
-    ("pair-sim", dict(depths="{1,2,3}", rows=4, total=14, garbage=1, validity="any", zero="TRUE", mode="pair"), "num=60000"),
-    ("single-sim", dict(depths="{1,2,3}", rows=6, total=16, garbage=1, validity="any", zero="TRUE", mode="single"), "num=40000"),
+    ("single-d012", dict(depths="{0,1,2}", rows=6, total=7, garbage=1, validity="any", zero="TRUE", mode="single"), None),
+    ("single-d3", dict(depths="{3}", rows=6, total=6, garbage=1, validity="any", zero="FALSE", mode="single"), None),
+    ("pair-allvalid", dict(depths="{2,3}", rows=2, total=9, garbage=0, validity="none", zero="FALSE", mode="pair"), None),
+    ("pair-small", dict(depths="{1,2}", rows=1, total=6, garbage=1, validity="any", zero="FALSE", mode="pair"), None),
+    ("pair-sim", dict(depths="{1,2,3}", rows=4, total=14, garbage=1, validity="any", zero="TRUE", mode="pair"), "num=20000"),
+    ("single-sim", dict(depths="{1,2,3}", rows=6, total=16, garbage=1, validity="any", zero="TRUE", mode="single"), "num=10000"),
 ]
 
-ACTIONS = ("Pick", "Fill", "Start", "Ser", "Unr")
 
 
 def _scenarios(out_path):
@@ -97,7 +96,9 @@ def run(prop, tier, replay):
             r = vlib.tlc_mc(f"{prop}-{name}", "RepDef", cfg, workers=workers, timeout=3000, simulate=sim, xmx="4g",
                             coverage=False)
         else:
-            r = vlib.tlc_mc(f"{prop}-{name}", "RepDef", cfg, workers=workers, timeout=3000, xmx="6g")
+            # -coverage makes these enumeration-heavy runs ~5x slower; vacuity is excluded below from the
+            # depth of the state graph instead (a full path pick/fill*/start/ser*/unr*/done was walked)
+            r = vlib.tlc_mc(f"{prop}-{name}", "RepDef", cfg, workers=workers, timeout=6000, xmx="6g", coverage=False)
         return name, par, sim, cfg, r
 
     with cf.ThreadPoolExecutor(max_workers=len(plan)) as ex:
@@ -112,9 +113,11 @@ def run(prop, tier, replay):
                        f"the design-level model violates {r['violated']} in run {name} (see {r['out']})", {"cfg": cfg})
             continue
         if not sim:
-            zero = [a for a in ACTIONS if r["coverage"].get(a, 0) == 0]
-            if zero:
-                raise vlib.ToolError(f"vacuous model run {name}: actions never taken {zero}")
+            nmax = max(int(d) for d in par["depths"].strip("{}").split(",")) + 1   # layers incl. the leaf
+            full_path = 3 * nmax + 5 if par["mode"] == "single" else 4 * nmax + 6
+            if r.get("depth") != full_path:
+                raise vlib.ToolError(f"vacuous model run {name}: state graph depth {r.get('depth')} != {full_path} "
+                                     f"(pick, fill x layers, start, serialize x layers+1, unravel x layers+1)")
             states += r.get("distinct", 0)
             trans += r.get("generated", 0)
         scns = _scenarios(r["out"])
@@ -142,12 +145,15 @@ def run(prop, tier, replay):
     wd = vlib.workdir(f"{prop}-traces")
     lines = [json.dumps(s) for _, s in scenarios]
     singles = [json.dumps(s) for _, s in scenarios if s["how"] == "one"]
+    file_cap = 12000 if tier == "quick" else 60000
+    file_stride = max(1, (len(singles) + file_cap - 1) // file_cap)
+    file_scns = singles[vlib.seed() % file_stride::file_stride]
     tiled_every = 150 if tier == "quick" else 40
     tiled = singles[vlib.seed() % tiled_every::tiled_every]
     jobs = []   # (label, mode, scenario lines)
     for i, ch in enumerate(_chunks(lines, 10 if tier == "quick" else 24)):
         jobs.append((f"api{i}", "api", ch))
-    for i, ch in enumerate(_chunks(singles, 6 if tier == "quick" else 16)):
+    for i, ch in enumerate(_chunks(file_scns, 6 if tier == "quick" else 16)):
         jobs.append((f"file{i}", "file", ch))
     for i, ch in enumerate(_chunks(tiled, 3 if tier == "quick" else 8)):
         jobs.append((f"tiled{i}", "tiled", ch))
@@ -243,7 +249,8 @@ def run(prop, tier, replay):
                            "random samples of a larger universe",
         "model_runs": mc_info, "scenarios_by_run": by_run, "event_counts": totals,
         "failure_classes": [{"check": k[0], "class": k[1], "events": n} for k, n in sorted(classes.items())],
-        "file_mode_skipped_fsl_shapes": skipped_f,
+        "file_mode_skipped_fsl_shapes": skipped_f, "file_mode_scenarios": len(file_scns), "file_mode_stride": file_stride,
+        "tiled_scenarios": len(tiled),
         "harness_build_s": build_s, "harness_s_sum": round(harness_s, 1), "validate_s_sum": round(validate_s, 1),
         "model_check_wall_s": round(t_mc, 1),
         "not_covered": "list layers combined with structural fixed-size-list layers (decimate is todo!()); zero-row pages; "
